@@ -231,8 +231,39 @@ fn h_blocked(_addr: usize) {
 }
 fn h_spin() {
     if !with_me(|id, ctl| sched(ctl, id, Why::Wait, "spin")) {
+        // A wait loop entered by the explorer itself while it reclaims an execution's state (deferred destructors run
+        // from `flush_epoch`): every model thread has finished, so nobody can ever change what the loop waits for.
+        // Retrying is bounded so that a destructor that can never complete is reported instead of hanging the part.
+        let stuck = RECLAIMING.with(|r| {
+            let mut r = r.borrow_mut();
+            if let Some(n) = r.as_mut() {
+                *n += 1;
+                *n > RECLAIM_SPIN_LIMIT
+            } else {
+                false
+            }
+        });
+        if stuck {
+            panic!("RECLAIM-STUCK: a wait loop entered while reclaiming the state of a finished execution never ends (no thread is left that could release it)");
+        }
         std::thread::yield_now();
     }
+}
+const RECLAIM_SPIN_LIMIT: u64 = 1 << 20;
+thread_local! {
+    static RECLAIMING: RefCell<Option<u64>> = RefCell::new(None);
+}
+
+/// Drops an execution's state and runs the epoch's deferred destructors on the exploring thread. `Err` if a destructor
+/// ran into a wait loop that can never end (see `h_spin`).
+fn reclaim<S>(state: Arc<S>) -> Result<(), String> {
+    RECLAIMING.with(|r| *r.borrow_mut() = Some(0));
+    let r = std::panic::catch_unwind(std::panic::AssertUnwindSafe(|| {
+        drop(state);
+        flush_epoch();
+    }));
+    RECLAIMING.with(|r| *r.borrow_mut() = None);
+    r.map_err(|e| e.downcast_ref::<String>().cloned().or_else(|| e.downcast_ref::<&str>().map(|s| s.to_string())).unwrap_or("panic while reclaiming".into()))
 }
 fn h_rng(upper: usize) -> Option<usize> {
     let scripted = RNG_SCRIPT.with(|s| {
@@ -464,8 +495,15 @@ pub fn explore<S: Send + Sync + 'static>(scn: &Scenario<S>, cfg: &Cfg, ctx: &Ctx
                     }
                 }
             }
-            drop(state);
-            flush_epoch();
+            if let Err(e) = reclaim(state) {
+                verdicts.push(format!("fail:reclamation-never-completes:{}", e));
+                if verdicts.len() == 1 {
+                    res.violation("reclamation-never-completes", format!("{} TRACE {}", e, ex.trace()), rp.clone());
+                }
+                res.states = 1;
+                res.distinct_outcomes = 1;
+                return;
+            }
         }
         if verdicts[0] != verdicts[1] {
             res.error = Some(format!("replay is not deterministic: {:?}", verdicts));
@@ -520,9 +558,16 @@ pub fn explore<S: Send + Sync + 'static>(scn: &Scenario<S>, cfg: &Cfg, ctx: &Ctx
                 Verdict::Fail { sig, msg } => format!("FAIL:{}:{}", sig, msg),
             };
             // own the nondeterminism: re-run failing executions and every 64th other one, compare
+            let stuck = |res: &mut PartResult, e: String, ex: &Exec| {
+                res.violation("reclamation-never-completes", format!("[{} pb={} preemptions={}] {} TRACE {}", scn.name, bound, ex.preemptions(), e, ex.trace().chars().take(1500).collect::<String>()), json!({"choices": ex.choices(), "scenario": scn.name}));
+                res.exhaustive = false;
+                res.cap_hit = Some("stopped at the first execution whose state could not be reclaimed".into());
+            };
             if is_fail || n_exec % 64 == 1 {
-                drop(state);
-                flush_epoch();
+                if let Err(e) = reclaim(state) {
+                    stuck(res, e, &ex);
+                    return;
+                }
                 let state2 = Arc::new((scn.setup)());
                 let ex2 = run_one(state2.clone(), &scn.bodies, ex.choices(), cfg.horizon);
                 let v2 = match judge(scn, &state2, &ex2) {
@@ -534,11 +579,14 @@ pub fn explore<S: Send + Sync + 'static>(scn: &Scenario<S>, cfg: &Cfg, ctx: &Ctx
                     res.error = Some(format!("nondeterminism: same schedule gave `{}` then `{}`", vkey, v2));
                     return;
                 }
-                drop(state2);
-            } else {
-                drop(state);
+                if let Err(e) = reclaim(state2) {
+                    stuck(res, e, &ex2);
+                    return;
+                }
+            } else if let Err(e) = reclaim(state) {
+                stuck(res, e, &ex);
+                return;
             }
-            flush_epoch();
             *outcomes.entry(vkey.chars().take(300).collect()).or_insert(0) += 1;
             state_hashes.insert(crate::driver::fnv(&vkey));
             if let Verdict::Fail { sig, msg } = verdict {
